@@ -560,6 +560,99 @@ func randomDyn(r *rand.Rand, cs *vh.Cases, st *vh.Stats) {
 	runDyn(cs, st, "dyn-history", mode, mtime, ops)
 }
 
+// ---------- names around the varint boundaries of the link wrapper ----------
+func vlenGo(v uint64) int {
+	n := 1
+	for v >= 128 {
+		v >>= 7
+		n++
+	}
+	return n
+}
+
+// fixedCid returns a CIDv0 (34 bytes) or a CIDv1 raw/sha2-256 (36 bytes) with a
+// run-compressible digest.
+func fixedCid(r *rand.Rand, v1 bool) cid.Cid {
+	d := make([]byte, 32)
+	b := byte(r.Intn(256))
+	for i := range d {
+		d[i] = b
+	}
+	m, _ := mh.Encode(d, mh.SHA2_256)
+	if v1 {
+		return cid.NewCidV1(cid.Raw, m)
+	}
+	return cid.NewCidV0(m)
+}
+
+func nameOfLen(r *rand.Rand, n int) string {
+	b := make([]byte, n)
+	c := byte('a' + r.Intn(26))
+	for i := range b {
+		b[i] = c
+	}
+	if n >= 8 {
+		copy(b, fmt.Sprintf("%03d", r.Intn(1000)))
+	}
+	return string(b)
+}
+
+// nameLenForInner returns the name length that makes the PBLink message
+// (Hash + Name + Tsize fields) exactly `inner` bytes long, or -1.
+func nameLenForInner(inner, cidLen int, tsize uint64) int {
+	rest := inner - (1 + vlenGo(uint64(cidLen)) + cidLen) - (1 + vlenGo(tsize)) - 1
+	for vl := 1; vl <= 3; vl++ {
+		n := rest - vl
+		if n >= 0 && vlenGo(uint64(n)) == vl {
+			return n
+		}
+	}
+	return -1
+}
+
+var wrapperTsizes = []uint64{0, 127, 128, 16384, 2097152, 1 << 35, 1 << 56, 1<<63 - 1}
+
+// boundaryEntries: for both CID lengths and several Tsize widths, the entries
+// whose link message is 125..130 and 16381..16386 bytes long (the wrapper's
+// length prefix grows at 128 and at 16384), the same with the Tsize field left
+// out of the count (a length prefix computed too early), and every name length
+// 1..300.
+func boundaryEntries(r *rand.Rand, quick bool, seed int64) []entry {
+	var out []entry
+	for ci, v1 := range []bool{false, true} {
+		cl := 34
+		if v1 {
+			cl = 36
+		}
+		for ti, ts := range wrapperTsizes {
+			if quick && (ci+ti+int(seed))%2 != 0 {
+				continue
+			}
+			for _, edge := range []int{128, 16384} {
+				for d := -3; d <= 2; d++ {
+					if n := nameLenForInner(edge+d, cl, ts); n >= 0 {
+						out = append(out, entry{nameOfLen(r, n), fixedCid(r, v1), ts})
+					}
+					// boundary of Hash+Name alone, i.e. inner = edge+d+(Tsize field)
+					if n := nameLenForInner(edge+d+1+vlenGo(ts), cl, ts); n >= 0 && (!quick || edge == 128) {
+						out = append(out, entry{nameOfLen(r, n), fixedCid(r, v1), ts})
+					}
+				}
+			}
+		}
+	}
+	for n := 1; n <= 300; n++ {
+		v1 := (n+int(seed))%2 == 0
+		out = append(out, entry{nameOfLen(r, n), fixedCid(r, v1), wrapperTsizes[(n+int(seed))%len(wrapperTsizes)]})
+		if n >= 70 && n <= 100 { // the window where Hash+Name+Tsize crosses 128: both CID kinds, all widths
+			for k, ts := range wrapperTsizes {
+				out = append(out, entry{nameOfLen(r, n), fixedCid(r, (k+n)%2 == 0), ts})
+			}
+		}
+	}
+	return out
+}
+
 func TestC17(t *testing.T) {
 	env := vh.Load(t)
 	r := env.Rng
@@ -635,6 +728,30 @@ func TestC17(t *testing.T) {
 		cs.Add(term, rp)
 		st.Case(term, true)
 		st.Count("kind:fun")
+	}
+
+	// ---- link-wrapper boundaries and every name length 1..300: direct calls and one-entry directories ----
+	for i, e := range boundaryEntries(r, !env.Thorough(), env.Seed) {
+		m, tm := genMode(r), genTime(r)
+		v := uint64(len(e.name))
+		term := vh.App("CFun", vh.ZU(v), vh.Z(int64(uio.VerifVarintLen(v))), e.coq(),
+			vh.Z(int64(uio.VerifLinkSerializedSize(e.name, e.c, e.tsize))),
+			vh.ZU(uint64(uint32(m))), timeCoq(tm), vh.Z(int64(uio.VerifDataFieldSerializedSize(m, tm))))
+		cs.Add(term, replay{Kind: "fun-boundary", Mode: uint32(m), Mtime: timeCoq(tm), Args: fmt.Sprintf("namelen=%d cidlen=%d tsize=%d", len(e.name), len(e.c.Bytes()), e.tsize)})
+		st.Case(term, true)
+		st.Count("kind:fun-boundary")
+		if len(e.name) <= 300 && (env.Thorough() || i%3 == int(env.Seed%3+3)%3) {
+			h := newHist(m, tm)
+			h.add(e)
+			if i%2 == 0 {
+				h.add(entry{e.name, e.c, wrapperTsizes[i%len(wrapperTsizes)]}) // replacement across a Tsize width
+			}
+			h.emit(cs, st, "boundary-dir")
+		} else if len(e.name) > 300 && i%4 == 0 {
+			h := newHist(0, time.Time{})
+			h.add(e)
+			h.emit(cs, st, "boundary-dir")
+		}
 	}
 
 	// ---- mode x mtime sweep on empty and one-entry directories ----
